@@ -794,3 +794,86 @@ Proof.
   apply remove_ord_danglings_nodup. eapply Permutation_NoDup; [apply Permutation_sym, P|].
   unfold getd. destruct (aget (g_succs g) n) eqn:E; [apply (inv_succ_val content g HI n l E) | constructor].
 Qed.
+
+(* ------------------------------------------------------------------ fuel: IndexAll terminates *)
+Section Fuel.
+Variable content : node -> list node.
+Variable sok : node -> bool.
+
+Definition cost (x : node) : nat := S (length (content x)).
+Fixpoint pot (U visited : list node) : nat :=
+  match U with
+  | [] => 0
+  | u :: r => (if smem u visited then 0 else cost u) + pot r visited
+  end.
+
+Lemma pot_mono U d visited : pot U (d :: visited) <= pot U visited.
+Proof.
+  induction U as [|u r IH]; simpl; auto.
+  destruct (N.eqb u d); [lia|]. destruct (smem u visited); lia.
+Qed.
+
+Lemma pot_visit U d visited :
+  In d U -> smem d visited = false -> pot U (d :: visited) + cost d <= pot U visited.
+Proof.
+  induction U as [|u r IH]; intros Hin Hd; simpl; [destruct Hin|].
+  destruct (N.eqb_spec u d) as [->|Hne].
+  - rewrite Hd. pose proof (pot_mono r d visited). lia.
+  - destruct Hin as [E|Hin]; [congruence|]. specialize (IH Hin Hd).
+    destruct (smem u visited); lia.
+Qed.
+
+Lemma index_all_fuel U :
+  (forall u, In u U -> forall c, In c (content u) -> In c U) ->
+  forall fuel work visited g,
+    (forall w, In w work -> In w U) ->
+    length work + pot U visited < fuel ->
+    snd (index_all content sok fuel work visited g) = true.
+Proof.
+  intros Hclosed. induction fuel as [|f IH]; intros work visited g Hw Hlt; [lia|].
+  simpl. destruct work as [|d rest]; auto.
+  simpl in Hlt.
+  assert (forall w, In w rest -> In w U) as Hrest by (intros w H; apply Hw; simpl; auto).
+  assert (In d U) as Hd by (apply Hw; simpl; auto).
+  destruct (smem d visited) eqn:M.
+  - apply IH; auto. lia.
+  - pose proof (pot_visit U d visited Hd M) as Hp. unfold cost in Hp.
+    destruct (sok d).
+    + apply IH.
+      * intros w H. apply in_app_iff in H. destruct H as [H|H]; auto. apply (Hclosed d Hd w H).
+      * rewrite app_length. lia.
+    + apply IH; auto. lia.
+Qed.
+
+Lemma load_from_fuel U fuel :
+  (forall u, In u U -> forall c, In c (content u) -> In c U) ->
+  1 + pot U [] < fuel ->
+  forall roots g, (forall r, In r roots -> In r U) ->
+    snd (load_from content sok fuel g roots) = true.
+Proof.
+  intros Hclosed Hf. induction roots as [|r rs IH]; intros g Hr; simpl; auto.
+  assert (snd (index_all content sok fuel [r] [] g) = true) as H1.
+  { apply (index_all_fuel U Hclosed).
+    - intros w [<-|[]]. apply Hr. simpl; auto.
+    - simpl. lia. }
+  unfold index_all_root.
+  destruct (index_all content sok fuel [r] [] g) as [[g1 v1] ok1]. simpl in H1. subst ok1.
+  specialize (IH g1 (fun r0 H => Hr r0 (or_intror H))).
+  destruct (load_from content sok fuel g1 rs) as [g2 ok2]. simpl in IH. subst ok2. reflexivity.
+Qed.
+End Fuel.
+
+(* For every finite universe closed under [content] that contains the roots there is a
+   fuel for which loadIndex / gcIndex / IndexAll complete: the [ok = true] hypothesis of
+   the reload theorems is always satisfiable, whatever the graph shape (cycles included). *)
+Lemma load_terminates content sok U roots :
+  (forall u, In u U -> forall c, In c (content u) -> In c U) ->
+  (forall r, In r roots -> In r U) ->
+  exists fuel g', load content sok fuel roots = (g', true).
+Proof.
+  intros Hc Hr. exists (2 + pot content U []).
+  assert (1 + pot content U [] < 2 + pot content U []) as Hlt by lia.
+  pose proof (load_from_fuel content sok U (2 + pot content U []) Hc Hlt roots empty_graph Hr) as H.
+  unfold load. destruct (load_from content sok (2 + pot content U []) empty_graph roots) as [g' ok].
+  simpl in H. subst ok. exists g'. reflexivity.
+Qed.
